@@ -1590,7 +1590,7 @@ pub fn run(ctx: &Ctx, replay: Option<&Value>) -> i32 {
     let nkeys = tier.pick(3usize, 4);
     let smt_depth = tier.pick(3usize, 5);
     let smt_model = SmtModel { ctx, cfg: smt_cfg(nkeys, ctx.seed), hist: Hist::new() };
-    let smt_stats = bfs::bfs(&smt_model, smt_depth, tier.pick(40.0, 600.0), 1_000_000);
+    let smt_stats = bfs::bfs(&smt_model, smt_depth, tier.pick(600.0, 3600.0), 1_000_000);
     lap("smt_bfs", &mut t);
     // every sequence of actions of a fixed length in one VM execution (shorter ones are prefixes)
     let seq_plans: Vec<(usize, usize)> = tier.pick(vec![(3, 3)], vec![(3, 4), (4, 3)]);
@@ -1611,7 +1611,7 @@ pub fn run(ctx: &Ctx, replay: Option<&Value>) -> i32 {
     // ---- MMR machine --------------------------------------------------------------------------
     let mmr_model = MmrModel { ctx, prefills: tier.pick(vec![0, 13], vec![0, 13, 29, 61]), hist: Hist::new() };
     let mmr_depth = tier.pick(5usize, 8);
-    let mmr_stats = bfs::bfs(&mmr_model, mmr_depth, tier.pick(40.0, 600.0), 1_000_000);
+    let mmr_stats = bfs::bfs(&mmr_model, mmr_depth, tier.pick(600.0, 3600.0), 1_000_000);
     ctx.sample(json!({"part": "mmr", "prefill": 13, "hist": [0, 1, 1], "act": "chain_get_all"}));
     lap("mmr_bfs", &mut t);
 
